@@ -12,7 +12,7 @@ CLAIMED = {
          "TLC exhaustively checks, for every pattern and string over {a,b,*,\\} up to length 4 (quick) / 5 (thorough) and over {a,*} up to 6/7 (8/9), that the "
          "code-shaped matcher machine equals membership in the declaratively defined pattern language and terminates; every "
          "exported (pattern,string,expected) case is executed on the real matcher through both the constructor and the IPLD "
-         "path, also against values of other kinds with the same content (bytes, list, map: never a match), and thousands of longer random "
+         "path and written out and read back (ToIPLD -> DAG-CBOR / DAG-JSON -> FromIPLD), also against values of other kinds with the same content (bytes, list, map: never a match); a third exhaustive family has the NUL byte as a character ({a,NUL,*,\\} up to 3/4); thousands of longer random "
          "evaluations (overlap-heavy two-letter pairs, multi-byte runes, non-string values) recorded from the real code are accepted or "
          "rejected by the same declarative operator in a trace specification.",
          "Trusts TLC, the transcription of the property into InLang/Tokens, and the harness' mapping of byte sequences to Go strings; "
@@ -91,7 +91,7 @@ CLAIMED.update({
    "axioms over all valid commands; every text, pair and join replayed on pkg/command; recorded random Unicode commands validated by TraceCommand.tla",
    "TLC checks for every text over {/,a,b,A,space} up to length 5 (7 thorough) that Parse accepts exactly the valid ones, for every pair of "
    "valid commands up to length 5 (6) that the HasPrefix+boundary fast path equals the segment-prefix order, reflexivity, antisymmetry, "
-   "transitivity (all triples) and top, and Join/Segments; all cases are executed on the real package and random Unicode commands are "
+   "transitivity (all triples) and top, and Join/Segments/New (the empty string is not a segment: Join passes over it, New is Join from the top command); all cases are executed on the real package and random Unicode commands are "
    "judged by the declarative operators in a trace spec; thorough: the order axioms proved for sequences of any length with TLAPS "
    "(spec/proofs/CoversOrder.tla).",
    "Trusts TLC and the harness; upper case is modelled by one representative letter in the exhaustive part and by per-rune flags "
@@ -178,7 +178,7 @@ CLAIMED.update({
    "every underlying write of 10-13 artefacts x 3 paddings (sealed, DAG-CBOR and DAG-JSON streaming encoders / decoders of single "
    "tokens, generic and typed, next to the containers), and TLC accepts or rejects each recorded outcome with the same operator; two "
    "stream reads are also interleaved deterministically (a gated reader stalls the first at structural positions while the second is "
-   "read completely): each must give what it gives alone.",
+   "read completely): each must give what it gives alone; four tokens back to back on one stream are read by successive calls with a decoder that stops at the end of the object (every kind of stream), and the first k bytes of a container of each format are read from memory and from a stream for every k (both refuse or both return the same tokens).",
    "Trusts TLC, the harness' fault-injecting reader/writer and its classification of offsets into unit boundaries; signatures may "
    "be randomized, so stream-vs-buffer byte equality is required only for deterministic schemes (CID = content address is always required)."),
 })
@@ -207,7 +207,7 @@ CLAIMED.update({
    "adversarial (policy, data) pairs of growing size so that super-linear time or memory shows; CAR section lengths up to 2^64-1; "
    "selectors with escapes; payloads that are not maps; == on equal nested / wide containers; heads declaring 2^20 entries) - and the "
    "acceptance rule (only value/error, allocation <= 8 MiB (48 MiB for container readers) + 1 KiB per input byte + 3 x what go-ipld-prime's "
-   "decoders allocate on the same input, measured per input) evaluated by TLC on every recorded call.",
+   "decoders allocate on the same input, measured per input) evaluated by TLC on every recorded call. The replay `refusal` runs invocation.ExecutionAllowed against delegation policies not(W^d(== .x 1)), d up to 400 / 1000: matching stays within the bound and refuses; the memory of the refusal itself (it quotes the failing statement pretty-printed: cubic in d) is the recorded finding RefusalPrintsNestedPolicy.",
    "Termination is a 20 s deadline per call; memory is cumulative allocation (an upper bound of peak use) measured with runtime.ReadMemStats; "
    "random inputs are plain sampling. go-ipld-prime pre-allocates from declared lengths up to a fixed budget (a 59-byte input announcing a 9.8 M-entry "
    "map costs 900 MB in the dependency): that share is bounded by a constant, as the property requires, and is accounted separately."),
